@@ -25,6 +25,7 @@ type zzWorld struct {
 	entities []*zzO
 	keys     map[string][]string // type -> key field names
 	computed map[string]zzComputed
+	argAware map[string]bool
 }
 
 func (w *zzWorld) lookup(repr []byte) *zzO {
@@ -64,6 +65,7 @@ type zzSubgraphs struct {
 	calls   map[string]int
 	reqs    []zzReq
 	faulted int // failing answers given
+	cacheControl map[string]string // url -> Cache-Control header of its answers ("" = none)
 }
 
 type zzReq struct {
@@ -101,6 +103,14 @@ func (s *zzSubgraphs) Load(ctx context.Context, headers http.Header, input []byt
 		return []byte(`{"errors":[{"message":"bad input"}]}`), nil
 	}
 	s.log = append(s.log, req.URL+" "+req.Body.Query)
+	if rc := httpclient.GetResponseContext(ctx); rc != nil {
+		rc.StatusCode = 200
+		h := http.Header{}
+		if cc := s.cacheControl[req.URL]; cc != "" {
+			h.Set("Cache-Control", cc)
+		}
+		rc.Response = &http.Response{StatusCode: 200, Header: h}
+	}
 	rq := zzReq{url: req.URL, query: req.Body.Query}
 	if raw, ok := req.Body.Variables["representations"]; ok {
 		var reprs []json.RawMessage
@@ -155,7 +165,7 @@ func (s *zzSubgraphs) Load(ctx context.Context, headers http.Header, input []byt
 	for k, v := range req.Body.Variables {
 		vars[k] = string(v)
 	}
-	ex := &zzExec{schema: schema, op: &doc, vars: vars, entities: s.world.lookup, computed: s.world.computed, subgraphSide: true}
+	ex := &zzExec{schema: schema, op: &doc, vars: vars, entities: s.world.lookup, computed: s.world.computed, argAware: s.world.argAware, subgraphSide: true}
 	data := ex.run(s.world.query)
 	if ex.missingRequired != "" && s.invalid == "" {
 		s.invalid = "representation sent to " + req.URL + " lacks a @requires field: " + ex.missingRequired
